@@ -32,9 +32,12 @@ import (
 // (`v (=name)` under an enclosing decorator; a union decorator repeated under an
 // enclosing decorator), so there are two spellings of `v (=name)`: as it is, or
 // as `v (name=T)` (defAsCast); a caller tries both.
-func readTextOrder(text string, defAsCast bool) ([]zed.Value, error) {
+//
+// stripUnion drops the outer (union) decorator of a doubly decorated value that
+// sits below another decorator (which then supplies the union type).
+func readTextOrder(text string, defAsCast, stripUnion bool) ([]zed.Value, error) {
 	p := zson.NewParser(strings.NewReader(text))
-	e := &expander{defs: map[string]astzed.Type{}, scratch: zed.NewContext(), defAsCast: defAsCast}
+	e := &expander{defs: map[string]astzed.Type{}, scratch: zed.NewContext(), defAsCast: defAsCast, stripUnion: stripUnion}
 	zctx := zed.NewContext()
 	analyzer := zson.NewAnalyzer()
 	var out []zed.Value
@@ -67,6 +70,8 @@ type expander struct {
 	scratch    *zed.Context
 	syntaxOnly bool // only track which names are defined (refsFollowDefs)
 	defAsCast  bool // spell v (=name) as v (name=T)
+	stripUnion bool // drop a repeated union decorator below another decorator
+	underCast  int  // number of enclosing decorated values
 	err        error
 }
 
@@ -103,8 +108,14 @@ func (e *expander) value(v astzed.Value) astzed.Value {
 		return &astzed.CastValue{Kind: "CastValue", Of: &astzed.ImpliedValue{Kind: "ImpliedValue", Of: of}, Type: def}
 	case *astzed.CastValue:
 		// text order: the value, then its decorator
+		_, doubly := v.Of.(*astzed.CastValue)
+		e.underCast++
 		of := e.value(v.Of)
+		e.underCast--
 		typ := e.typ(v.Type)
+		if e.stripUnion && doubly && e.underCast > 0 {
+			return of
+		}
 		return &astzed.CastValue{Kind: "CastValue", Of: of, Type: typ}
 	}
 	e.err = errors.New("unknown value node")
